@@ -54,6 +54,17 @@ def run(prog, rep, tier):
             rep.violation(R74, key.split("|", 1)[1], what)
     for s in s6.rules.get("R6.1", {}).get("samples", []) + s6.rules.get("R6.8", {}).get("samples", []):
         rep.examined(R74, "sample|" + str(s)[:60], sample=s)
+    import c08 as _c08w
+    s8 = _sub(prog, rep, _c08w, "C08")
+    R712 = rep.rule("R7.12", "worker loops advance past a record they could not decode (from C08 R8.6, C06 R6.7)")
+    for (rid, key, what, detail) in s8.violations:
+        if rid == "R8.6":
+            rep.violation(R712, key.split("|", 1)[1], what + " [a damaged record makes the worker spin: nothing more is printed from any source]")
+    for (rid, key, what, detail) in s6.violations:
+        if rid == "R6.7":
+            rep.violation(R712, key.split("|", 1)[1], what)
+    for k_ in sorted(s8.rules.get("R8.6", {}).get("keys", ())) + sorted(s6.rules.get("R6.7", {}).get("keys", ())):
+        rep.examined(R712, k_, sample={"instance": k_})
     s5 = _sub(prog, rep, c05, "C05")
     for (rid, key, what, detail) in s5.violations:
         if rid in ("R5.1c", "R5.1b"):
